@@ -107,6 +107,9 @@ func showState(s *types.State) string {
 // ---------------------------------------------------------------- canonical results
 
 func cls(err error) string {
+	if errors.Is(err, hx.ErrInjected) {
+		return "err:io" // an injected transient read fault of the datastore (op `fault`)
+	}
 	if errors.Is(err, ds.ErrNotFound) {
 		return "err:notfound"
 	}
@@ -406,6 +409,17 @@ type snap struct {
 	writes int
 	ref    *refState
 	op     string
+	stale  map[string]bool // faultStale at that boundary
+}
+
+func copySet(m map[string]bool) map[string]bool {
+	out := make(map[string]bool, len(m))
+	for k, v := range m {
+		if v {
+			out[k] = true
+		}
+	}
+	return out
 }
 
 type world struct {
@@ -422,6 +436,12 @@ type world struct {
 	// reads that already disagree with the reference (reported once); the monitor stays armed for every
 	// other read, and for these as soon as they agree again
 	diverged map[string]bool
+	// read faults armed by the last `fault` op for the NEXT store call only (log backend): the first pendSkip
+	// datastore reads of that call succeed, the following pendGet reads fail with hx.ErrInjected
+	pendGet, pendSkip int
+	// hashes whose index entry a block save that met a read fault left behind (the defect repaired by /repo 3ba0234:
+	// C14/read/by-hash-returns-other-block-after-height-overwrite/after-read-fault)
+	faultStale map[string]bool
 }
 
 // fresh returns the mismatches that were not there at the previous look and remembers the current set.
@@ -451,7 +471,17 @@ func (w *world) novel(ms []mismatch) []mismatch {
 }
 
 // cause names the known ways a read can be wrong more precisely than "<kind> differs".
-func (w *world) cause(m mismatch) string { return causeOf(w.ref, m) }
+func (w *world) cause(m mismatch) string { return w.causeIn(w.ref, m) }
+
+// causeIn: causeOf, made more specific when the stale hash index entry was left behind by a block save whose
+// look-up of the replaced header met an injected read fault.
+func (w *world) causeIn(ref *refState, m mismatch) string {
+	sig := causeOf(ref, m)
+	if sig != "" && w.faultStale[m.id] {
+		sig += "/after-read-fault"
+	}
+	return sig
+}
 func causeOf(ref *refState, m mismatch) string {
 	if (m.kind == "hash" || m.kind == "sighash") && strings.HasPrefix(m.got, "ok ") && m.want == "err:notfound" && ref.overwritten(m.id) {
 		return "C14/read/by-hash-returns-other-block-after-height-overwrite"
@@ -516,7 +546,7 @@ func (w *world) postAudit(c *hx.Ctx, op string, touched func(kind, id string) bo
 }
 
 func (w *world) snapshot(op string) {
-	w.snaps = append(w.snaps, snap{writes: w.be.NumWrites(), ref: w.ref.clone(), op: op})
+	w.snaps = append(w.snaps, snap{writes: w.be.NumWrites(), ref: w.ref.clone(), op: op, stale: copySet(w.faultStale)})
 }
 
 // checkRead: an explicit read op must agree with the reference map (akind = the audit's name of the read).
@@ -607,6 +637,38 @@ func runC14(c *hx.Ctx) {
 }
 
 func (w *world) do(c *hx.Ctx, op hx.Op) string {
+	if op.Verb == "fault" {
+		// fault get=<n> [skip=<k>]: of the datastore reads made by the NEXT store call, the first k succeed and the
+		// following n fail with a transient error; whatever is left of the budget is dropped after that call
+		n, ok := op.U64("get")
+		if !ok || w.kind != "log" {
+			return "bad-op"
+		}
+		k, _ := op.U64("skip")
+		w.pendGet, w.pendSkip = int(min(n, 1<<20)), int(min(k, 1<<20))
+		c.Hit("fault-armed")
+		return "ok"
+	}
+	fg, fs := w.pendGet, w.pendSkip
+	w.pendGet, w.pendSkip = 0, 0
+	// arm right before the store call under test; disarm right after it (the monitor's own reads are fault-free)
+	// and say whether a fault fired
+	arm := func() {
+		if w.kind == "log" {
+			w.lds.FailGet, w.lds.FailGetSkip = fg, fs
+		}
+	}
+	disarm := func() bool {
+		if w.kind != "log" {
+			return false
+		}
+		hit := fg > 0 && w.lds.FailGet < fg
+		w.lds.FailGet, w.lds.FailGetSkip = 0, 0
+		if hit {
+			c.Hit("read-fault-" + op.Verb)
+		}
+		return hit
+	}
 	switch op.Verb {
 	case "save":
 		sh := types.SignedHeader{Header: headerOfOp(op), Signature: op.Bytes("hsig"), Signer: signerOfOp(op)}
@@ -619,8 +681,13 @@ func (w *world) do(c *hx.Ctx, op hx.Op) string {
 		hash := []byte(sh.Hash())
 		before := w.be.NumWrites()
 		refBefore := w.ref.clone()
-		if err := w.st.SaveBlockData(ctx, &sh, &d, &sig); err != nil {
+		arm()
+		err := w.st.SaveBlockData(ctx, &sh, &d, &sig)
+		hit := disarm()
+		if err != nil {
 			c.Hit("save-err")
+			// a failed save must leave nothing behind
+			w.postAudit(c, "save-failed", func(kind, id string) bool { return kind != "height" && kind != "state" && kind != "meta" })
 			return cls(err)
 		}
 		after := w.be.NumWrites()
@@ -642,6 +709,14 @@ func (w *world) do(c *hx.Ctx, op hx.Op) string {
 		w.ref.save(h, hk, hb, db, sig)
 		w.un.heights[h] = true
 		w.un.hashes[hk] = hash
+		delete(w.faultStale, hk)
+		if hit && oldHash != "" && oldHash != hk {
+			// the look-up of the replaced header met a read fault: if its index entry is left behind, say so
+			if w.faultStale == nil {
+				w.faultStale = map[string]bool{}
+			}
+			w.faultStale[oldHash] = true
+		}
 		// all-or-nothing under every crash prefix of this op's writes (independent of the model)
 		if w.mon && w.kind == "log" {
 			for n := before + 1; n < after; n++ {
@@ -660,6 +735,9 @@ func (w *world) do(c *hx.Ctx, op hx.Op) string {
 			}
 			return false
 		})
+		if hit && oldHash != "" && !w.diverged["hash|"+oldHash] && !w.diverged["sighash|"+oldHash] {
+			delete(w.faultStale, oldHash) // nothing was left behind
+		}
 		w.snapshot("save")
 		return "ok hash=" + hk + " ws=" + describe(wss)
 	case "get", "geth", "sig":
@@ -669,6 +747,7 @@ func (w *world) do(c *hx.Ctx, op hx.Op) string {
 		}
 		w.un.heights[at] = true
 		var got, want, kind string
+		arm()
 		switch op.Verb {
 		case "get":
 			got, want, kind = rdBlock(w.st, at), w.ref.expBlock(at), "block-by-height"
@@ -678,6 +757,9 @@ func (w *world) do(c *hx.Ctx, op hx.Op) string {
 			got, want, kind = rdSig(w.st, at), w.ref.expSig(at), "signature-by-height"
 		}
 		c.Hit(op.Verb + "-" + strings.SplitN(got, " ", 2)[0])
+		if disarm() && got == "err:io" {
+			return got // the read failed because of the injected fault: outside the property's quantifier
+		}
 		w.checkRead(c, kind, map[string]string{"get": "block", "geth": "header", "sig": "signature"}[op.Verb], fmt.Sprint(at), got, want)
 		return got
 	case "getbyhash", "sigbyhash":
@@ -687,26 +769,43 @@ func (w *world) do(c *hx.Ctx, op hx.Op) string {
 		}
 		w.un.hashes[hx.Hex(x)] = x
 		var got, want, kind string
+		arm()
 		if op.Verb == "getbyhash" {
-			got, want, kind = rdByHash(w.st, x), w.ref.expByHash(x), "block-by-hash"
+			got = rdByHash(w.st, x)
+		} else {
+			got = rdSigByHash(w.st, x)
+		}
+		if disarm() && got == "err:io" {
+			c.Hit(op.Verb + "-err:io")
+			return got
+		}
+		if op.Verb == "getbyhash" {
+			want, kind = w.ref.expByHash(x), "block-by-hash"
 			// always armed, and independent of the reference map: a block found under hash x has hash x
 			if w.mon && strings.HasPrefix(got, "ok ") {
 				if hd, _, err := w.st.GetBlockByHash(ctx, x); err == nil && !bytes.Equal(hd.Hash(), x) {
 					sig := "C14/read/block-by-hash-has-other-hash"
 					if w.ref.overwritten(hx.Hex(x)) {
 						sig = "C14/read/by-hash-returns-other-block-after-height-overwrite"
+						if w.faultStale[hx.Hex(x)] {
+							sig += "/after-read-fault"
+						}
 					}
 					c.Report(sig, fmt.Sprintf("GetBlockByHash(%s) returned the block of height %d whose header hash is %s", hx.Hex(x), hd.Height(), hx.Hex(hd.Hash())))
 				}
 			}
 		} else {
-			got, want, kind = rdSigByHash(w.st, x), w.ref.expSigByHash(x), "signature-by-hash"
+			want, kind = w.ref.expSigByHash(x), "signature-by-hash"
 		}
 		c.Hit(op.Verb + "-" + strings.SplitN(got, " ", 2)[0])
 		w.checkRead(c, kind, map[string]string{"getbyhash": "hash", "sigbyhash": "sighash"}[op.Verb], hx.Hex(x), got, want)
 		return got
 	case "height":
+		arm()
 		got := rdHeight(w.st)
+		if disarm() && got == "err:io" {
+			return got
+		}
 		w.checkRead(c, "height", "height", "", got, w.ref.expHeight())
 		return got
 	case "setheight":
@@ -716,7 +815,26 @@ func (w *world) do(c *hx.Ctx, op hx.Op) string {
 		}
 		before := w.be.NumWrites()
 		old := w.ref.height
-		if err := w.st.SetHeight(ctx, to); err != nil {
+		arm()
+		err := w.st.SetHeight(ctx, to)
+		hit := disarm()
+		// judged on the state AFTER the call, with a fault-free read, whether the call failed or not: the recorded
+		// height only grows (a call that fails because of a transient read error must not have lowered it either)
+		if w.mon {
+			// (a height read that already disagrees with the reference was reported when it went wrong: this call is
+			// not blamed for it)
+			if h, e := w.st.Height(ctx); e == nil && h < old && !w.diverged["height|"] {
+				sig, how := "C14/height/decreased", ""
+				if hit {
+					sig, how = sig+"/after-read-fault", fmt.Sprintf(" (its read of the height record met a transient datastore error; the call answered %v)", err)
+				}
+				c.Report(sig, fmt.Sprintf("SetHeight(%d) lowered the recorded height from %d to %d%s", to, old, h, how))
+			}
+		}
+		if err != nil {
+			c.Hit("setheight-err")
+			// a failed SetHeight must leave nothing behind
+			w.postAudit(c, "setheight-failed", func(kind, id string) bool { return kind == "height" })
 			return cls(err)
 		}
 		wss := w.be.WritesSince(before)
@@ -726,18 +844,16 @@ func (w *world) do(c *hx.Ctx, op hx.Op) string {
 		} else {
 			c.Hit("setheight-not-up")
 		}
-		if w.mon {
-			if h, err := w.st.Height(ctx); err == nil && h < old {
-				c.Report("C14/height/decreased", fmt.Sprintf("SetHeight(%d) lowered the recorded height from %d to %d", to, old, h))
-			}
-		}
 		w.postAudit(c, "setheight", func(kind, id string) bool { return kind == "height" })
 		w.snapshot("setheight")
 		return "ok ws=" + describe(wss)
 	case "state":
 		s := stateOfOp(op)
 		before := w.be.NumWrites()
-		if err := w.st.UpdateState(ctx, s); err != nil {
+		arm()
+		err := w.st.UpdateState(ctx, s)
+		disarm()
+		if err != nil {
 			return cls(err)
 		}
 		wss := w.be.WritesSince(before)
@@ -747,7 +863,11 @@ func (w *world) do(c *hx.Ctx, op hx.Op) string {
 		w.snapshot("state")
 		return "ok ws=" + describe(wss)
 	case "getstate":
+		arm()
 		got := rdState(w.st)
+		if disarm() && got == "err:io" {
+			return got
+		}
 		c.Hit("getstate-" + strings.SplitN(got, " ", 2)[0])
 		w.checkRead(c, "state", "state", "", got, w.ref.expState())
 		return got
@@ -758,7 +878,10 @@ func (w *world) do(c *hx.Ctx, op hx.Op) string {
 		}
 		v := op.Bytes("v")
 		before := w.be.NumWrites()
-		if err := w.st.SetMetadata(ctx, k, v); err != nil {
+		arm()
+		err := w.st.SetMetadata(ctx, k, v)
+		disarm()
+		if err != nil {
 			return cls(err)
 		}
 		wss := w.be.WritesSince(before)
@@ -774,7 +897,11 @@ func (w *world) do(c *hx.Ctx, op hx.Op) string {
 			return "bad-op"
 		}
 		w.un.metas[k] = true
+		arm()
 		got := rdMeta(w.st, k)
+		if disarm() && got == "err:io" {
+			return got
+		}
 		c.Hit("getmeta-" + strings.SplitN(got, " ", 2)[0])
 		w.checkRead(c, "meta", "meta", k, got, w.ref.expMeta(k))
 		return got
@@ -806,11 +933,18 @@ func (w *world) do(c *hx.Ctx, op hx.Op) string {
 		}
 		chosen := w.snaps[lo].ref
 		exact := w.snaps[lo].writes == keep
+		// index entries left behind by a faulted save up to that boundary are back as they were then
+		w.faultStale = copySet(w.snaps[lo].stale)
+		for k := range w.snaps[min(lo+1, len(w.snaps)-1)].stale {
+			if !exact {
+				w.faultStale[k] = true
+			}
+		}
 		c.Hit(fmt.Sprintf("crash-back-%d", min(int(back), 4)))
 		if w.mon {
 			if exact {
 				for _, m := range w.fresh(audit(w.st, chosen, w.un)) {
-					if sig := causeOf(chosen, m); sig != "" {
+					if sig := w.causeIn(chosen, m); sig != "" {
 						c.Report(sig, fmt.Sprintf("after a crash that kept %d of %d atomic writes (an operation boundary): %s", keep, n, m))
 						continue
 					}
@@ -831,7 +965,7 @@ func (w *world) do(c *hx.Ctx, op hx.Op) string {
 			w.fresh(audit(w.st, chosen, w.un)) // what is wrong now was reported above: do not blame later operations
 		}
 		w.ref = chosen.clone()
-		w.snaps = []snap{{writes: 0, ref: w.ref.clone(), op: "crash"}}
+		w.snaps = []snap{{writes: 0, ref: w.ref.clone(), op: "crash", stale: copySet(w.faultStale)}}
 		return fmt.Sprintf("ok n=%d", keep)
 	case "reopen":
 		w.reopen(c, "reopen")
@@ -988,7 +1122,8 @@ var heightSets = [][]uint64{
 	{1 << 32, 1<<32 + 1, 1 << 63, math.MaxUint64}, {1, 10, 11, 100, 101},
 }
 
-func genScenario(r *hx.Rng, w io.Writer, backend string, nops int, unclean bool) {
+func genScenario(r *hx.Rng, w io.Writer, backend string, nops int, unclean bool, faults ...bool) {
+	withFaults := len(faults) > 0 && faults[0] && backend == "log"
 	mon := "1"
 	if unclean {
 		mon = "0"
@@ -1031,6 +1166,15 @@ func genScenario(r *hx.Rng, w io.Writer, backend string, nops int, unclean bool)
 	rmeta := func() string { return metas[r.Intn(len(metas))] }
 	states := []string{rstateLine(r), rstateLine(r)}
 	for i := 0; i < nops; i++ {
+		if withFaults && r.Chance(18) {
+			// a transient read fault of the datastore meets the next store call: the first read (mostly), a later
+			// read, or several; every second one is aimed at SetHeight (above, equal to and below what is recorded)
+			fmt.Fprintf(w, "fault get=%d skip=%d\n", []int{1, 1, 1, 2, 3, 0}[r.Intn(6)], []int{0, 0, 0, 1, 1, 2}[r.Intn(6)])
+			if r.Chance(50) {
+				fmt.Fprintf(w, "setheight to=%d\n", rheight())
+				continue
+			}
+		}
 		x := r.Intn(100)
 		switch {
 		case x < 22:
@@ -1112,10 +1256,38 @@ func genBadgerSmoke(r *hx.Rng, w io.Writer) {
 	fmt.Fprintf(w, "getmeta k=%s\n", hx.Hex([]byte("rhb/2/h")))
 }
 
+// genReadFaults: the deliberate read-fault scenarios (every run): SetHeight below / equal to / above the recorded
+// height with its read of the height record faulted; a height saved again under another header while the look-up
+// of the replaced header (first read) or of its index entry (second read) is faulted - the input of the repaired
+// defect C14/read/by-hash-returns-other-block-after-height-overwrite/after-read-fault (/repo 3ba0234); faulted getters.
+func genReadFaults(r *hx.Rng, w io.Writer) {
+	fmt.Fprintln(w, "reset backend=log mon=1")
+	for _, l := range []string{"fault get=1", "setheight to=10", "height", "setheight to=10", "fault get=1", "setheight to=3", "height",
+		"fault get=1", "setheight to=10", "height", "fault get=1", "setheight to=12", "height", "fault get=1 skip=1", "setheight to=12",
+		"fault get=1", "height", "height", "fault", "fault get=zz", "fault get=0", "setheight to=13", "crash back=0", "reopen", "height"} {
+		fmt.Fprintln(w, l)
+	}
+	for _, f := range []string{"fault get=1", "fault get=1 skip=1", "fault get=2 skip=0"} {
+		fmt.Fprintln(w, "reset backend=log mon=1")
+		a, b, a2 := rblock(r, 5), rblock(r, 5), rblock(r, 6)
+		for _, l := range []string{a.line, a2.line, f, b.line, "getbyhash x=" + hx.Hex(a.hash), "sigbyhash x=" + hx.Hex(a.hash),
+			"getbyhash x=" + hx.Hex(b.hash), "get at=5", f, "get at=5", f, "getbyhash x=" + hx.Hex(b.hash), f, "sigbyhash x=" + hx.Hex(b.hash),
+			f, "geth at=5", f, "sig at=5", rstateLine(r), f, "getstate", f, rstateLine(r), "getstate",
+			"setmeta k=64 v=0102", f, "getmeta k=64", f, "setmeta k=64 v=03", "getmeta k=64",
+			"fault get=3 skip=2", "getbyhash x=" + hx.Hex(a2.hash), "fault get=1", a.line, "getbyhash x=" + hx.Hex(a.hash), "getbyhash x=" + hx.Hex(b.hash),
+			"crash back=0", "reopen", "getbyhash x=" + hx.Hex(a.hash), "getbyhash x=" + hx.Hex(b.hash)} {
+			fmt.Fprintln(w, l)
+		}
+	}
+	fmt.Fprintln(w, "reset backend=badger mon=1")
+	fmt.Fprintln(w, "fault get=1") // no fault injection on real badger: bad-op on both sides
+	fmt.Fprintln(w, "height")
+}
+
 func genC14(r *hx.Rng, tier string, w io.Writer) {
-	nlog, nunclean, nbadger, nops := 250, 30, 0, 45
+	nlog, nunclean, nbadger, nops, nfault := 250, 30, 0, 45, 70
 	if tier == "thorough" {
-		nlog, nunclean, nbadger, nops = 900, 80, 16, 60
+		nlog, nunclean, nbadger, nops, nfault = 900, 80, 16, 60, 250
 	}
 	// malformed / out-of-order lines: both sides must answer bad-op
 	fmt.Fprintln(w, "get at=1")
@@ -1137,6 +1309,12 @@ func genC14(r *hx.Rng, tier string, w io.Writer) {
 		// so that the store is exercised on its production datastore on every run (costs well under 2 s); generated
 		// last among the random scenarios so that the log-backend scenarios of a seed stay what they were
 		genBadgerSmoke(r, w)
+	}
+	// transient READ faults of the datastore (log backend), generated after everything else so that the scenarios
+	// above stay what they were for a seed
+	genReadFaults(r, w)
+	for i := 0; i < nfault; i++ {
+		genScenario(r, w, "log", nops, i%8 == 7, true)
 	}
 	if tier == "thorough" {
 		// values just below badger's 1 MiB value threshold (they count in full towards the transaction size
